@@ -85,6 +85,10 @@ TRAJ = {t.name: t for t in [
     Traj("takeoff_mixed", 51.99, 4.37, 60, 160, receiver=(52.30, 4.80), surface_until=12.0, taxi_kt=25, kinds=(0, 1, "vel", "id"), gaps=(0.4, 4, 9.6)),
     Traj("takeoff_mixed_norecv", 51.99, 4.37, 60, 160, receiver=None, surface_until=12.0, taxi_kt=25, kinds=(0, 1, "vel", "id"), gaps=(0.4, 4, 9.6)),
     Traj("landing_mixed", 52.30, 4.70, 240, 140, receiver=(52.30, 4.80), surface_from=12.0, taxi_kt=40, kinds=(0, 1, "vel", "id"), gaps=(0.4, 4, 9.6)),
+    # airborne tracks across NL boundaries with a receiver location configured FAR away (> 1000 NM): the location must not
+    # influence airborne decoding at all
+    Traj("NL59_north_480kt_far_receiver", C.TRANS[59] - 0.01, 4.0, 0, 480, receiver=(52.0, 4.0)),
+    Traj("NL30_southern_north_600kt_far_receiver", -C.TRANS[30] - 0.01, -70.0, 0, 600, receiver=(10.0, -60.0)),
     # take-off roll: surface-format frames while the aircraft is already fast (150 kt for 60 s, 2.5 NM), then airborne
     Traj("takeoff_roll_150kt", 52.30, 4.74, 0, 220, receiver=(52.30, 4.80), surface_until=60.0, taxi_kt=150, gaps=(0.4, 4, 9.6, 10.4, 24, 45)),
     # the aircraft stays listed through a long stretch without positions (identification only) and then reports again
